@@ -218,12 +218,12 @@ func (c *ClientChannel) EstablishSession(
 					return nil, fmt.Errorf("establish session: set encryption: %w", err)
 				}
 			}
-		}
 
-		// Await for authentication options
-		ses, err = c.receiveSessionFromServer(ctx)
-		if err != nil {
-			return nil, fmt.Errorf("establish session: %w", err)
+			// Await for authentication options
+			ses, err = c.receiveSessionFromServer(ctx)
+			if err != nil {
+				return nil, fmt.Errorf("establish session: %w", err)
+			}
 		}
 	}
 
